@@ -1629,9 +1629,12 @@ func containsOperatorsOutsideFunctions(expr string) bool {
 	// Simple approach: if it's just a single function call, it shouldn't be treated as complex
 	trimmed := strings.TrimSpace(expr)
 
-	// If it starts with a function name and ends with ), it's likely a simple function call
-	if match := regexp.MustCompile(`^[A-Za-z_][A-Za-z0-9_]*\s*\([^)]*\)$`).FindString(trimmed); match == trimmed {
-		return false
+	// A single call f( ... ) whose closing parenthesis ends the text has no operator outside it,
+	// whatever its arguments contain (nested parentheses included, e.g. SUM(t * (b - 2))).
+	if m := regexp.MustCompile(`^[A-Za-z_][A-Za-z0-9_]*\s*\(`).FindStringIndex(trimmed); m != nil {
+		if findMatchingParenInternal(trimmed, m[1]-1) == len(trimmed)-1 {
+			return false
+		}
 	}
 
 	// Check for operators
